@@ -1067,6 +1067,7 @@ def check_forward(ix, rep, cls, f, nodename, rule='R-FORWARD'):
     node = f.node.args.args[1].arg
     env = {}
     ret = None
+    bypasses = []
     try:
         for st in f.node.body:
             if isinstance(st, ast.Expr) and isinstance(st.value, ast.Constant):
@@ -1085,11 +1086,47 @@ def check_forward(ix, rep, cls, f, nodename, rule='R-FORWARD'):
             if isinstance(st, ast.Return):
                 ret = _hterm(ix, f, st.value, env, node)
                 break
+            if isinstance(st, ast.If) and not st.orelse and len(st.body) >= 1 and isinstance(st.body[-1], ast.Return) \
+                    and all(isinstance(x, (ast.Return, ast.Expr)) and (isinstance(x, ast.Return) or isinstance(x.value, ast.Constant)) for x in st.body):
+                bypasses.append((st, st.body[-1]))
+                continue
             raise Shape('handler statement %s' % ast.unparse(st)[:50])
     except Shape as e:
         rep.error('%s (%s): %s; the handler was decided on the pinned tree' % (f.where, f.qual, e))
         return False
     want = ('call', kernel, tuple(('child', k) for k in range(arity)) + (('bound', 0), ('bound', 1)))
+    for (ifst, r) in bypasses:
+        # a path that leaves the handler without the kernel.  Two shortcuts are the kernel's own result: no samples -> no samples, and the
+        # window [0,0], which is the operand itself.  Anything else is a second implementation of the operator on that path; in particular
+        # an unbounded scan is never the same as a bounded window, however long: the last value is held beyond the last sample, where old
+        # samples do leave a window of any finite length
+        try:
+            rv = _hterm(ix, f, r.value, env, node) if r.value is not None else None
+        except Shape:
+            rv = ('expr', ast.unparse(r.value)[:60])
+        ctext = ast.unparse(ifst.test)
+        names = dict(env)
+        def _is(e, what):
+            return isinstance(e, ast.Name) and names.get(e.id) == what
+        t = ifst.test
+        empty_guard = (isinstance(t, ast.UnaryOp) and isinstance(t.op, ast.Not) and isinstance(t.operand, ast.Name) and names.get(t.operand.id, (None,))[0] == 'child') or \
+                      (isinstance(t, ast.Compare) and len(t.ops) == 1 and isinstance(t.ops[0], ast.Eq) and isinstance(t.left, ast.Call) and ast.unparse(t.left.func) == 'len'
+                       and isinstance(t.comparators[0], ast.Constant) and t.comparators[0].value == 0 and t.left.args and isinstance(t.left.args[0], ast.Name)
+                       and names.get(t.left.args[0].id, (None,))[0] == 'child')
+        def _zero(e, which):
+            return isinstance(e, ast.Compare) and len(e.ops) == 1 and isinstance(e.ops[0], (ast.Eq, ast.LtE)) and _is(e.left, ('bound', which)) \
+                and isinstance(e.comparators[0], ast.Constant) and e.comparators[0].value == 0
+        point_guard = _zero(t, 1) or (isinstance(t, ast.BoolOp) and isinstance(t.op, ast.And) and any(_zero(v, 1) for v in t.values)
+                                       and all(_zero(v, 0) or _zero(v, 1) for v in t.values))
+        is_empty_value = isinstance(r.value, ast.List) and not r.value.elts
+        if empty_guard and (is_empty_value or (rv is not None and rv[0] == 'child')):
+            rep.ok(rule, f.module.rel, f.qual, slot + ':shortcut:empty', 'no samples in, no samples out', ifst.lineno)
+        elif point_guard and arity == 1 and rv == ('child', 0):
+            rep.ok(rule, f.module.rel, f.qual, slot + ':shortcut:[0,0]', 'the window [0,0] is the operand itself', ifst.lineno)
+        else:
+            rep.fail(rule, f.module.rel, f.qual, slot + ':bypass', 'under `%s` the handler returns  %s  and never reaches  %s : a second implementation of the operator on that '
+                     'path (only the empty signal and the window [0,0] have a result that needs no kernel; a scan over the samples is not a bounded window of any length, '
+                     'the last value is held beyond the last sample, where older samples do leave the window)' % (ctext[:60], _hshow(rv), _hshow(want)), ifst.lineno)
     if ret == want:
         rep.ok(rule, f.module.rel, f.qual, slot, _hshow(want), f.node.lineno)
         return True
@@ -1122,6 +1159,8 @@ def _hshow(t):
         return ('begin', 'end')[t[1]]
     if t[0] == 'c':
         return repr(t[1])
+    if t[0] == 'expr':
+        return t[1]
     return '%s(%s)' % (t[1], ', '.join(_hshow(a) for a in t[2]))
 
 
